@@ -6,6 +6,7 @@ package main
 import (
 	"go/constant"
 	"go/token"
+	"go/types"
 	"sort"
 	"strconv"
 	"strings"
@@ -28,6 +29,7 @@ func checkC06(p *Prog, r *Report) {
 	ruleC06Verbatim(p, a, r)
 	ruleC06Redispatch(p, a, r)
 	ruleC06Source(p, a, r)
+	ruleC06VerbatimBody(p, a, r)
 }
 
 // R-C06-EOF: the value the lexer's next() returns at the end of the input lies outside the domain of runes.
@@ -673,6 +675,115 @@ func sinkParent(v ssa.Value) *ssa.Function {
 		return in.Parent()
 	}
 	return v.Parent()
+}
+
+// R-C06-VBODY: the body of a verbatim block is text like any other for the parser (one HTML token), so the
+// whitespace-control machinery would apply to it: `-}}` / `{{-` of its neighbours and TrimBlocks/LStripBlocks. The
+// lexer marks the token it emits while in verbatim mode, and the node's trim flags are only ever set for unmarked tokens.
+func ruleC06VerbatimBody(p *Prog, a *Anchors, r *Report) {
+	r.Begin("R-C06-VBODY", "text emitted while the lexer is in verbatim mode is marked, and the trim flags of a text node are set only for unmarked tokens: a verbatim body is never trimmed by its neighbours' whitespace control or by the set's block options", 3)
+	run := p.Method("lexer", "run")
+	emit := p.Method("lexer", "emit")
+	if run == nil || emit == nil {
+		r.Unk("anchor", "-", "anchor unresolved: (*lexer).run / emit")
+		return
+	}
+	// the marker field: a bool field of Token stored with true in run under inVerbatim
+	marker := ""
+	inVerb := func(c ssa.Value, pol bool) bool { return pol && loadsField(c, "lexer", "inVerbatim") }
+	for _, b := range run.Blocks {
+		for _, in := range b.Instrs {
+			st, ok := in.(*ssa.Store)
+			if !ok {
+				continue
+			}
+			fa, ok := st.Addr.(*ssa.FieldAddr)
+			if !ok {
+				continue
+			}
+			if n := structOf(fa.X.Type()); n == nil || n.Obj().Name() != "Token" {
+				continue
+			}
+			if bv, isC := constBool(st.Val); isC && bv && Guarded(in, inVerb) {
+				marker = fieldName(fa.X.Type(), fa.Field)
+			}
+		}
+	}
+	if marker == "" {
+		r.Bad("lexer:mark", p.Pos(run.Pos()), "the lexer does not mark the text token it emits inside a verbatim block: the parser cannot tell a verbatim body from ordinary text and applies whitespace control to it")
+		return
+	}
+	// every emit under inVerbatim is followed by the mark before the scanning loop goes on
+	for _, c := range callsTo(run, emit) {
+		in := c.(ssa.Instruction)
+		if !Guarded(in, inVerb) {
+			continue
+		}
+		ok := true
+		for _, s := range in.Block().Succs {
+			_ = s
+		}
+		// the mark must come before the verbatim flag is cleared (leaving the mode)
+		var clear ssa.Instruction
+		for _, b := range run.Blocks {
+			for _, x := range b.Instrs {
+				if st, isSt := x.(*ssa.Store); isSt && isFieldAddrOf(st.Addr, "lexer", "inVerbatim") {
+					if bv, isC := constBool(st.Val); isC && !bv && ReachesInstr(in.Block(), x) {
+						clear = x
+					}
+				}
+			}
+		}
+		if clear != nil {
+			ok = MustPassFrom(in.Block(), instrIndex(in)+1, clear, func(x ssa.Instruction) bool {
+				st, isSt := x.(*ssa.Store)
+				if !isSt {
+					return false
+				}
+				fa, isFA := st.Addr.(*ssa.FieldAddr)
+				return isFA && structOf(fa.X.Type()) != nil && structOf(fa.X.Type()).Obj().Name() == "Token" && fieldName(fa.X.Type(), fa.Field) == marker
+			})
+		}
+		if ok {
+			r.OK("lexer:mark", p.InstrPos(in), "the token emitted in verbatim mode gets Token.%s", marker)
+		} else {
+			r.Bad("lexer:mark", p.InstrPos(in), "a token emitted in verbatim mode can leave the lexer without Token.%s", marker)
+		}
+	}
+	// the parser: trim flags only for unmarked tokens
+	flags := map[string]bool{}
+	if n := p.Named("nodeHTML"); n != nil {
+		st := n.Underlying().(*types.Struct)
+		for i := 0; i < st.NumFields(); i++ {
+			if b, ok := st.Field(i).Type().Underlying().(*types.Basic); ok && b.Kind() == types.Bool {
+				flags[st.Field(i).Name()] = true
+			}
+		}
+	}
+	nStores := 0
+	p.EachInstr(func(f *ssa.Function, in ssa.Instruction) {
+		st, ok := in.(*ssa.Store)
+		if !ok {
+			return
+		}
+		fa, ok := st.Addr.(*ssa.FieldAddr)
+		if !ok || structOf(fa.X.Type()) == nil || structOf(fa.X.Type()).Obj().Name() != "nodeHTML" || !flags[fieldName(fa.X.Type(), fa.Field)] {
+			return
+		}
+		if bv, isC := constBool(st.Val); isC && !bv {
+			return
+		}
+		nStores++
+		key := p.FuncName(f) + ":nodeHTML." + fieldName(fa.X.Type(), fa.Field)
+		if Guarded(in, func(c ssa.Value, pol bool) bool { return !pol && loadsField(c, "Token", marker) }) {
+			r.OK(key, p.InstrPos(in), "set only when the token is not a verbatim body")
+		} else {
+			r.Bad(key, p.InstrPos(in), "this trim flag can be set for the text of a verbatim block: {{ a -}}{% verbatim %}  x{% endverbatim %} loses the blanks of the body (or its first newline under TrimBlocks)")
+		}
+	})
+	if nStores == 0 {
+		r.Unk("parser:flags", "-", "no store to a bool field of nodeHTML found")
+	}
 }
 
 // R-C06-REDISPATCH: after the lexer enters or leaves verbatim mode, no rune is consumed before the
